@@ -1095,6 +1095,7 @@ Qed.
 (* Well-formedness of an operation relative to the state it is applied to.
    - Commit: the admission facts of the accepted samples (wf_acc);
    - Delete: no out-of-order head sample of a selected series inside the range (wf_delete);
+   - CompactPending (a head compaction while an appender is open): NOT proved, assumed like Restart;
    - Restart: NOT proved here — the step is assumed to re-establish the invariant and to
      preserve the set of visible samples (this is what C01_refinement_partial leaves open). *)
 Definition wf_op (c : cfg) (s : state) (o : op) : Prop :=
@@ -1102,6 +1103,7 @@ Definition wf_op (c : cfg) (s : state) (o : op) : Prop :=
   | Commit l _ f => wf_accs c (init_time (s_head s) f) l
   | Delete mint maxt sel => wf_delete (s_head s) mint maxt sel
   | Restart rl => inv c (step c s o) /\ sequiv (abs (step c s o)) (abs s)
+  | CompactPending pend => inv c (step c s o) /\ sequiv (abs (step c s o)) (abs s)
   | _ => True
   end.
 
@@ -1118,7 +1120,7 @@ Theorem step_refines c s o :
   wf_cfg c -> inv c s -> wf_op c s o ->
   inv c (step c s o) /\ sequiv (abs (step c s o)) (spec_step (abs s) (spec_of_op o)).
 Proof.
-  intros Hw Hi Hwf. destruct o as [l lg f|mint maxt sel| | | |rl]; cbn [step spec_of_op].
+  intros Hw Hi Hwf. destruct o as [l lg f|mint maxt sel| | | |rl|pend]; cbn [step spec_of_op].
   - (* Commit *)
     destruct Hi as [Hh Hb]. cbn [wf_op] in Hwf.
     destruct (init_time_inv c (s_head s) f Hh) as [Hh0 Hv0].
@@ -1141,6 +1143,7 @@ Proof.
   - apply compact_step; auto.
   - apply compact_ooo_step; auto.
   - apply clean_step; auto.
+  - exact Hwf.
   - exact Hwf.
 Qed.
 
